@@ -30,6 +30,14 @@ def standard_batches(rng, tier, quick_sizes=(4000, 3000, 3000, 3), thorough_size
            + [case(b'a = ' + t) for t in ftlgen.exhaustive(ftlgen.SMALL, exlen - 1)]
            + [case(b'a = {' + t) for t in ftlgen.exhaustive(ftlgen.SMALL, exlen - 1)])
     yield ('random-tokens', [case(t) for t in ftlgen.token_strings(rng, nrand, 12)])
+    # special first characters: a byte order mark (or another non-ASCII / invisible character) in front of otherwise ordinary
+    # sources, with and without a syntax error further down.  Nothing in the grammar skips a BOM, so both parsers must treat it
+    # alike, and every offset they report must stay an offset into the text as given
+    heads = [b'\xef\xbb\xbf', b'\xef\xbb\xbf\n', b'\xef\xbb\xbf ', b'\xe2\x80\x8b', b'\xc2\xa0', b'\xef\xbf\xbe']
+    tails = [b'hello = Hi\nbye = Bye\n', b'# c\nkey = v\n', b'-t = x\n    .a = y\nm = { -t.a }\n', b'a = {\nb = 1\n', b'a = 1\nbad = { "\nc = 2\n',
+             b'\nkey = v\n', b'a = { FOO(\nb = 1\n', b'## g\n\nk = { $x ->\n   *[o] y\n }\nz z\n']
+    tails += [b for _, b in fx if len(b) < 400][:12]
+    yield ('special-first-character', [case(h + t) for h in heads for t in tails])
     small = [b for _, b in fx if len(b) < 1200]
     muts = []
     for _ in range(nmut):
